@@ -1,12 +1,14 @@
 ----------------------------- MODULE MC_Functions -----------------------------
-(* Enumeration of the cases of ExprCases.tla: which = "image" (C06) or "filter" (C10); Sample thins the large products out. *)
+(* Enumeration of the cases of ExprCases.tla: which = "image" (C06), "filter" (C10) or "unique" (C14, projections of a UNIQUE column); Sample thins the large products out. *)
 EXTENDS ExprCases, Json
 CONSTANTS Which, Thin
 VARIABLES c
 ImageCases == Depth1 \cup Aggregates \cup Depth2
 FilterCases == { [pred |-> p, cols |-> cs] : p \in Predicates, cs \in FilterCols }
 Keep(x) == Thin = 1 \/ RandomElement(0..(Thin - 1)) = 0
-Init == IF Which = "image" THEN c \in { x \in ImageCases : Keep(x) } ELSE c \in { x \in FilterCases : Keep(x) }
+Init == CASE Which = "image" -> c \in { x \in ImageCases : Keep(x) }
+          [] Which = "unique" -> c \in { x \in UniqueCases : Keep(x) }
+          [] OTHER -> c \in { x \in FilterCases : Keep(x) }
 Next == FALSE /\ UNCHANGED c
 Spec == Init /\ [][Next]_c
 Emit == PrintT(<<"REPLAY", ToJson(c)>>)
